@@ -2,8 +2,8 @@
 """Regenerates MANIFEST.json from the table below (kept valid at all times)."""
 import json, subprocess
 CLAIMED = {
- "C01": ("model-based lock-step simulation of the real TCP (and RTU) server against model::server; byte-exact reply comparison at every quiescent point",
-         "seeded simulation: real server tasks on simulated network; reference-model oracle", "4 C01"),
+ "C01": ("model-based lock-step simulation of the real TCP (and RTU) server against model::server; byte-exact reply comparison at every quiescent point; replies while an application thread holds the handler mutex are explored by the shuttle engine",
+         "seeded simulation: real server tasks on simulated network; reference-model oracle (thread interleavings: shuttle schedule exploration)", "4 C01"),
  "C02": ("same runs as C01; instrumented handlers journal every callback, compared with the reference model's expected calls and final point memory; RTU broadcast delivery while an application thread holds a handler mutex is explored by the shuttle engine",
          "seeded simulation: handler-journal oracle against reference model (thread interleavings: shuttle schedule exploration)", "4 C02"),
  "C03": ("lock-step simulation of the real client task against a recording peer over the boundary lattice: exact MBAP encoding in one frame or rejection with zero bytes on the transport",
@@ -66,7 +66,7 @@ man = {
  "hooks": {"guard": "--cfg rodbus_verif_shuttle", "enable": "only the shuttle engine sets it (RUSTFLAGS in /verif/shuttle_engine/.cargo/config.toml): it swaps `use std::sync::{Arc, Mutex}` in rodbus/src/server/handler.rs for shuttle's so that handler-mutex acquisitions are scheduling points. Everything else needs no hook: the seam is dependency substitution via shadow manifests (tokio -> simtokio, tokio-serial -> simserial) and /repo sources are compiled unmodified",
            "baseline_off_cmd": "cd /repo && cargo test --workspace --no-fail-fast --offline", "source_commits": ["ff2eb44"], "add_only": True},
  "engines": [{"name": "miri", "path": "miri_engine.py", "serves_properties": ["C18", "C19"], "kind_free_text": "the seeded simulation runs of the C-ABI scenarios (no TLS) interpreted by Miri (cargo +nightly miri run): any undefined behaviour in rodbus-ffi / rodbus aborts the run with a report; event-log hashes must equal the native engine's"},
-  {"name": "shuttle", "path": "shuttle_engine", "serves_properties": ["C02", "C17", "C18", "C19"], "kind_free_text": "shuttle (seeded random + PCT schedulers) over two threads: the simulation driver with the real server (C-ABI TCP server for C19, RTU server for C02/C17) and an application thread (database transactions interleaved with client reads and acknowledged client writes / work under a handler mutex); replayable schedule files"},
+  {"name": "shuttle", "path": "shuttle_engine", "serves_properties": ["C01", "C02", "C17", "C18", "C19"], "kind_free_text": "shuttle (seeded random + PCT schedulers) over two threads: the simulation driver with the real server (C-ABI TCP server for C19, RTU server for C02/C17) and an application thread (database transactions interleaved with client reads and acknowledged client writes / work under a handler mutex); replayable schedule files"},
   {"name": "sim", "path": "sim", "serves_properties": sorted(CLAIMED), "kind_free_text": "deterministic discrete-event simulation of the unmodified rodbus tasks (tokio facade: network, serial, clock, executor, select! start index), seeded choice tape, shrinking, replay"}],
  "checks": checks,
  "not_applicable": [{"property_id": p, "reason": PENDING_REASON} for p in props if p not in CLAIMED],
